@@ -171,3 +171,45 @@ Proof.
     destruct r as [|y r]; [reflexivity|]. cbn [bytes_eqb]. cbn [length] in L. apply Nat.succ_lt_mono in L.
     rewrite (IH r L). apply andb_false_r.
 Qed.
+
+(* ---------- several keys in one block: skipping to the next key terminates, trying again does not ---------- *)
+Lemma skip_others_le : forall l, (length (skip_others l) <= length l)%nat.
+Proof.
+  induction l as [|p r IH]; cbn [skip_others length]; [apply le_n|].
+  destruct p; cbn [length]; [apply le_n|]. now apply le_S.
+Qed.
+Lemma drop_others_le : forall n l, (length (drop_others n l) <= length l)%nat.
+Proof.
+  induction n as [|n IH]; intros l; destruct l as [|p r]; cbn [drop_others length]; try apply le_n.
+  destruct p; cbn [length]; [apply le_n|]. apply le_S. apply IH.
+Qed.
+
+(* every round of the skipping loop shortens the input: length l + 1 rounds always suffice *)
+Lemma ring_skip_terminates_gen : forall fuel l, (length l < fuel)%nat -> exists n, ring_skip fuel l = Some n.
+Proof.
+  induction fuel as [|f IH]; intros l H; [inversion H|].
+  cbn [ring_skip]. destruct l as [|p r]; cbn [read_entity]; [eauto|].
+  cbn [length] in H. apply Nat.succ_lt_mono in H.
+  destruct p as [[|] n|].
+  - destruct (IH (skip_others r)) as [k E]; [eapply Nat.le_lt_trans; [apply skip_others_le|exact H]|].
+    rewrite E. cbn [option_map]. eauto.
+  - apply IH. eapply Nat.le_lt_trans; [apply skip_others_le|].
+    eapply Nat.le_lt_trans; [apply drop_others_le|exact H].
+  - apply IH. cbn [skip_others]. eapply Nat.le_lt_trans; [apply skip_others_le|exact H].
+Qed.
+
+Theorem ring_skip_terminates : forall l, exists n, ring_skip (S (length l)) l = Some n.
+Proof. intros l. apply ring_skip_terminates_gen. apply Nat.lt_succ_diag_r. Qed.
+
+(* a usable key, then a key that fails with a packet that is no key left in front: no amount of fuel is enough *)
+Definition two_keys_second_damaged : list pkt := [PKey true 0; POther; PKey false 1; POther; POther].
+Lemma ring_retry_stuck : forall fuel, ring_retry fuel [POther] = None.
+Proof. induction fuel as [|f IH]; [reflexivity|]. cbn [ring_retry read_entity]. exact IH. Qed.
+Theorem ring_retry_diverges : forall fuel, ring_retry fuel two_keys_second_damaged = None.
+Proof.
+  intros [|[|f]]; [reflexivity|reflexivity|].
+  cbn [ring_retry read_entity two_keys_second_damaged skip_others drop_others option_map].
+  rewrite ring_retry_stuck. reflexivity.
+Qed.
+Lemma ring_skip_on_witness : ring_skip 6 two_keys_second_damaged = Some 1%nat.
+Proof. reflexivity. Qed.
